@@ -1,5 +1,5 @@
 INIT Init
 NEXT Next
-CONSTANTS TolAng = 20 TolLen = 20 TolScale = 20 TolArea = 20 AccLat = 7200 AccLon = 20 AccLen = 125
+CONSTANTS TolAng = 20 TolLen = 20 TolScale = 20 TolArea = 20 AccLat = 7200 AccLon = 20 AccLen = 125 ClairautMin = 100000000 TolTurn = 1000
 POSTCONDITION Summary
 CHECK_DEADLOCK FALSE
